@@ -1,5 +1,5 @@
 """C05 — comparisons are exact and equal numbers hash equally."""
-from props import _core
+from props import _core, _api
 import hash_ops
 
 LEVEL = "proof"
@@ -31,4 +31,4 @@ def run(ctx):
     cov["hash_law_pairs_comparing_equal"] = law.eq_true
     cov["hash_input_distribution"] = {k: {str(a): b for a, b in v.items()} for k, v in g.hist.items()}
     cov["traces_validated_against_impl"] = cov["evaluations"]
-    return res
+    return _api.add_cmp(ctx, res)
